@@ -72,6 +72,7 @@ def _constructed_ids(o, acc):
 
 
 CALLS = 9
+READS = 3  # read-only uses of the value that may instantiate placeholders for absent members (history only, never the call under test)
 
 
 def _call(which, v, spec, enc_der):
@@ -94,8 +95,24 @@ def _call(which, v, spec, enc_der):
     if which == 7:
         w, rest = der_decoder.decode(enc_der, asn1Spec=spec)
         return (der_encoder.encode(w), bytes(rest))
-    w, rest = cer_decoder.decode(cer_encoder.encode(v), asn1Spec=spec)
-    return (der_encoder.encode(w), bytes(rest))
+    if which == 8:
+        w, rest = cer_decoder.decode(cer_encoder.encode(v), asn1Spec=spec)
+        return (der_encoder.encode(w), bytes(rest))
+    # read-only uses (only as prior history)
+    if isinstance(v, base.ConstructedAsn1Type):
+        if which == 9:
+            return len([x for x in (v.values() if hasattr(v, "values") else v)])
+        if which == 10:
+            if hasattr(v, "items"):
+                return len([k for k, x in v.items()])
+            return len(list(v))
+        if v.__class__.__name__ == "Choice":
+            return v.getComponent().isValue  # (positional reads of a non-selected alternative re-select: not a read of an existing member)
+        n = len(v.componentType) if v.__class__.__name__ in ("Sequence", "Set") else len(v)
+        for i in range(n):
+            v.getComponentByPosition(i)
+        return n
+    return None
 
 
 def _safe_call(which, v, spec, enc_der):
@@ -209,6 +226,12 @@ def default_sharing(omit, k, newval, via, order):
     return None
 
 
+def _all_optional_record(t):
+    from vfw.findings_lib import _walk
+
+    return any(n.kind in ("SEQ", "SET") and n is not t and n.comps and all(c[2] != "req" for c in n.comps) for n in _walk(t))
+
+
 def history_indep(sid, n_prior, p0, p1, which, **slots):
     e = by_id(sid)
     av = e.mk(**slots)
@@ -221,6 +244,10 @@ def history_indep(sid, n_prior, p0, p1, which, **slots):
     v = build(t, av)
     enc = der_encoder.encode(v)
     for p in (p0, p1)[:n_prior]:
+        if p >= CALLS and _all_optional_record(e.t):
+            # reading an ABSENT member instantiates it (documented); for a record type whose own members are all OPTIONAL/DEFAULT the
+            # placeholder is already a value, i.e. such a read is not read-only in this library (see C19 / finding F-empty-optional-omitted)
+            raise Skip()
         _safe_call(p, v, spec, enc)
     got = _safe_call(which, v, spec, enc)
     if got != fresh:
@@ -357,12 +384,12 @@ for e in all_entries():
     _first = e.t.comps[0][1].kind if e.t.comps else (e.t.elem.kind if e.t.elem is not None else None)
     if e.has("constructed") and _first == "INT":
         OBLIGATIONS.append(entry_obl("sharing", sharing, e, extra={"mutate": B}, narrow=True, budget=90, extra_shards=[fix], tiers=tiers))
-    OBLIGATIONS.append(entry_obl("history_indep", history_indep, e, extra={"n_prior": I(0, 2), "p0": I(0, CALLS - 1), "p1": I(0, CALLS - 1), "which": I(0, CALLS - 1)},
+    OBLIGATIONS.append(entry_obl("history_indep", history_indep, e, extra={"n_prior": I(0, 2), "p0": I(0, CALLS + READS - 1), "p1": I(0, CALLS + READS - 1), "which": I(0, CALLS - 1)},
                                  narrow=True, budget=120, extra_shards=[dict(fix, which=C(w)) for w in (1, 3, 4, 6, 8)],
-                                 tiers=tiers if e.id in ("seq", "set_mixed", "seqof_int", "choice", "bits", "int") else ("thorough",)))
+                                 tiers=("quick", "thorough") if e.id in ("seq", "set_mixed", "seqof_int", "choice", "bits", "int", "seq_optc") else ("thorough",)))
     OBLIGATIONS.append(entry_obl("debug_flag", debug_flag, e, extra={"which": I(0, CALLS - 1)}, narrow=True, budget=120,
                                  extra_shards=[dict(fix, which=C(w)) for w in range(CALLS)],
-                                 tiers=tiers if e.id in ("seq", "set_mixed", "seqof_int", "choice.E", "bits", "octs", "seq_any") else ("thorough",)))
+                                 tiers=("quick", "thorough") if e.id in ("seq", "set_mixed", "seqof_int", "choice.E", "bits", "octs", "seq_any", "seq_optc", "seq_any_def") else ("thorough",)))
 for _sid in ("seq_any", "seq_any.E", "seq", "choice.E", "seqof_int", "set_mixed"):
     e = by_id(_sid)
     fix = dict((k, v) for k, v in FIX.items() if k in e.params and k not in e.shard)
